@@ -32,6 +32,47 @@ def run_elem(key, args):
     return stack[-1]
 
 
+_VCODE = {}
+
+
+def run_v(key, args):
+    """the element under the explicit `v` modifier: the transpiled program `v<key>` on a preset stack"""
+    from vyxal.transpile import transpile
+    if key not in _VCODE:
+        _VCODE[key] = transpile("v" + key)
+    ctx = Context()
+    stack = list(args)
+    ctx.stacks.append(stack)
+    ns = dict(vars(M)); ns["stack"] = stack; ns["ctx"] = ctx
+    exec(_VCODE[key], ns)
+    return stack[-1]
+
+
+def o_explicit(inp):
+    """`v` + a dyadic element with one scalar and one list: the element applied to the scalar and each item of the list
+    (each application vectorising further on its own), whether the list is eager or lazy"""
+    key, args, lazy = inp["key"], inp["args"], inp["lazy"]
+    a, b = args
+    try:
+        with alarm(5):
+            if isl(b):
+                want = [canon(run_elem(key, [dec(a, False), dec(y, False)])) for y in b[1]]
+            else:
+                want = [canon(run_elem(key, [dec(x, False), dec(b, False)])) for x in a[1]]
+    except Timeout:
+        return True, "timeout on items"
+    except BaseException as ex:  # noqa: BLE001
+        return True, f"an item result is undefined ({type(ex).__name__})"
+    try:
+        with alarm(5):
+            got = canon(run_v(key, [dec(x, lazy) for x in args]))
+    except Timeout:
+        return True, "timeout"
+    except BaseException as ex:  # noqa: BLE001
+        return False, f"v{key} on {args} ({'lazy' if lazy else 'eager'}) raised {type(ex).__name__}: {ex}; item by item it gives {want}"
+    return got == want, f"v{key} on {args} ({'lazy' if lazy else 'eager'}) = {got}, item by item {want}"
+
+
 def canon(v):
     if isinstance(v, LazyList):
         with alarm(3):
@@ -108,7 +149,7 @@ def o_fib(_):
     return o_elementwise({"key": "∆f", "args": [["l", [3, 2, 7]]], "lazy": False})[:2]
 
 
-ORACLES = {"elementwise": o_elementwise, "not_vectorising": o_fib}
+ORACLES = {"explicit_v": o_explicit, "elementwise": o_elementwise, "not_vectorising": o_fib}
 
 
 def pairf(lhs, rhs, ctx):
@@ -169,6 +210,17 @@ def run(ctx, widen=False):
                         n = min(len(a[1]), len(b[1])); a = ["l", a[1][:n]]; b = ["l", b[1][:n]]
                     cases.append({"key": k, "args": [a, b], "lazy": lazy})
     ctx.check_many("elementwise", cases)
+    # the explicit `v` modifier on dyadic elements, scalar-list and list-scalar, eager and lazy
+    vcases = []
+    for k in [k for k in keys if arity[k] == 2 and k not in ("ƈ", "∆L")]:
+        for _ in range(6 if ctx.tier == "thorough" else 2):
+            l = ["l", [rng.choice(S) for _ in range(rng.randint(1, 3))]]
+            sc_ = rng.choice([0, 1, 2, 3, 5, 12, 25])
+            for args in ([sc_, l], [l, sc_]):
+                for lazy in (False, True):
+                    vcases.append({"key": k, "args": args, "lazy": lazy})
+    ctx.bump("explicit v cases", len(vcases))
+    ctx.check_many("explicit_v", vcases)
     ctx.sample(cases[0]); ctx.sample({"key": "+", "args": [["l", [1, ["l", [2, 3]]]], 10], "result": canon(run_elem("+", [[1, [2, 3]], 10]))})
     # correspondence of the shared `vectorise` helper with the Lean skeleton
     lines, exp = [], []
